@@ -69,6 +69,7 @@ func (c *Ctx) Script(sel map[int]bool) string {
 	b.WriteString("(declare-fun selem (Slice Int) Ref)\n")
 	b.WriteString("(assert (forall ((s Slice) (i Int)) (! (= (selem s i) (ridx (sarr s) (+ (soff s) i))) :pattern ((selem s i)))))\n")
 	b.WriteString(c.declareInitialHeaps())
+	b.WriteString(c.R.AxiomsText())
 	if _, ok := c.R.heaps[HAlloc]; ok {
 		b.WriteString("(assert (not (select Alloc_0 rnil)))\n")
 	}
